@@ -7,6 +7,8 @@
   every rejection is a TypeError or ValueError; a missing required field is a TypeError.
 -/
 import TypedpyModel.Lemmas.Complete
+import TypedpyModel.Lemmas.Formats
+import TypedpyModel.Lemmas.Decimal
 namespace Typedpy.C02
 open Typedpy
 
@@ -87,6 +89,212 @@ theorem immutableSet_reads_frozenset (O : Oracles) (f : FieldDecl) (sz : SizeOpt
   · rcases bindE_eq_ok h with ⟨ys, _, h2⟩
     split at h2 <;> simp at h2
     exact ⟨_, h2.symm⟩
+
+/-! ### the extension string fields
+
+`SizedString`, `IPV4`, `HostName`, `DateString`, `TimeString`, `JSONString` are `string` declarations of the model:
+`maxlen` is one more upper bound on the length, a format takes the pattern slot as a synthetic token.  For IPV4 and
+HostName the token is decided by the model itself (`ipv4Ok` / `hostNameOk`, Core/Formats.lean), and these functions
+accept exactly the documented languages (`ipv4Ok_iff`, `hostNameOk_iff`, Lemmas/Formats.lean). -/
+
+/-- the oracles decide the IPV4 / HostName tokens as the model's own format functions do -/
+def FormatOracles (O : Oracles) : Prop :=
+  ∀ s, O.reMatch ipv4Token s = ipv4Ok s ∧ O.reMatch hostNameToken s = hostNameOk s
+
+/-- the oracles the driver runs with (`fmtMatch` around the per-case table) are such oracles -/
+theorem fmtMatch_formatOracles (other : String → String → Bool) (hook : List (String × PyVal) → Bool) :
+    FormatOracles { reMatch := fmtMatch other, hookOk := hook } := by
+  intro s
+  constructor
+  · simp [fmtMatch]
+  · have : (hostNameToken == ipv4Token) = false := by decide
+    simp [fmtMatch, this]
+
+/-- a `string` declaration decides exactly: a `str` within the length bounds that the pattern / format admits; what is
+    stored is the string itself; a non-`str` is a TypeError and every other rejection a ValueError -/
+theorem string_field_exact (O : Oracles) (lo hi : Option Nat) (pat : Option String) (v : PyVal) :
+    (∀ w, validate O (.string lo hi pat) v = .ok w ↔
+      ∃ s, v = .str s ∧ w = .str s ∧ geLen lo s.length = true ∧ leLen hi s.length = true ∧ patOk O pat s = true)
+    ∧ (validate O (.string lo hi pat) v = .error .typeErr ↔ ∀ s, v ≠ .str s)
+    ∧ (∀ e, validate O (.string lo hi pat) v = .error e → e = .typeErr ∨ e = .valueErr) := by
+  cases v <;> simp [validate, vString]
+  rename_i s
+  cases h1 : leLen hi s.length <;> cases h2 : geLen lo s.length <;> cases pat <;>
+    simp [vPattern, patOk] <;> (try (intro w; constructor <;> intro h <;> simp_all))
+  all_goals
+    rename_i p
+    cases h3 : O.reMatch p s <;> simp
+    all_goals (try (intro w; constructor <;> intro h <;> simp_all))
+
+/-- **IPV4**: under format oracles the field accepts exactly the strings of the documented language - four
+    components of 1..3 ASCII decimal digits, each 0..255, joined by single dots (no trailing newline, no other digits) -
+    within the String length bounds, and stores them unchanged -/
+theorem ipv4_field_exact (O : Oracles) (hO : FormatOracles O) (lo hi : Option Nat) (v w : PyVal) :
+    validate O (.string lo hi (some ipv4Token)) v = .ok w ↔
+      ∃ s, v = .str s ∧ w = .str s ∧ geLen lo s.length = true ∧ leLen hi s.length = true ∧ IsIPv4 s := by
+  rw [(string_field_exact O lo hi (some ipv4Token) v).1 w]
+  simp only [patOk, (hO _).1, ipv4Ok_iff]
+
+/-- **HostName**: exactly the RFC 952/1123 host names - labels of 1..63 ASCII letters / digits / hyphens without a
+    hyphen at either end, joined by single dots, 2..253 characters in all -/
+theorem hostname_field_exact (O : Oracles) (hO : FormatOracles O) (lo hi : Option Nat) (v w : PyVal) :
+    validate O (.string lo hi (some hostNameToken)) v = .ok w ↔
+      ∃ s, v = .str s ∧ w = .str s ∧ geLen lo s.length = true ∧ leLen hi s.length = true ∧ IsHostName s := by
+  rw [(string_field_exact O lo hi (some hostNameToken) v).1 w]
+  simp only [patOk, (hO _).2, hostNameOk_iff]
+
+/-- **SizedString**(maxlen = m, maxLength = hi) is the `string` declaration with the tighter bound: whatever it stores
+    is a `str` no longer than `m` and no longer than `hi` -/
+theorem sized_string_bound (O : Oracles) (lo : Option Nat) (hi m : Nat) (pat : Option String) (v w : PyVal)
+    (h : validate O (.string lo (some (min hi m)) pat) v = .ok w) :
+    ∃ s, w = .str s ∧ s.length ≤ m ∧ s.length ≤ hi := by
+  rcases ((string_field_exact O lo (some (min hi m)) pat v).1 w).1 h with ⟨s, _, hw, _, hle, _⟩
+  refine ⟨s, hw, ?_, ?_⟩ <;> (simp [leLen] at hle; omega)
+
+/-- non-vacuity of the format theorems: the Lean functions on concrete strings (valid, leading zeros, 256, a missing
+    component, a trailing newline, an empty label, a hyphen at a label edge, a single character) -/
+theorem format_example :
+    ipv4Ok "1.2.3.4" = true ∧ ipv4Ok "001.02.3.255" = true ∧ ipv4Ok "256.1.1.1" = false ∧ ipv4Ok "1.2.3" = false
+    ∧ ipv4Ok "1.2.3.4\n" = false ∧ ipv4Ok "1..3.4" = false ∧ ipv4Ok "1.2.3.4.5" = false ∧ ipv4Ok "" = false
+    ∧ hostNameOk "example.com" = true ∧ hostNameOk "a-b.c9" = true ∧ hostNameOk "a..b" = false
+    ∧ hostNameOk "a-.b" = false ∧ hostNameOk "-a" = false ∧ hostNameOk "a.b\n" = false ∧ hostNameOk "a" = false
+    ∧ hostNameOk "a_b" = false
+    ∧ (match validate { reMatch := fmtMatch fun _ _ => false } (.string none (some 8) (some ipv4Token)) (.str "1.2.3.4") with
+        | .ok (.str s) => s == "1.2.3.4" | _ => false) = true
+    ∧ (match validate { reMatch := fmtMatch fun _ _ => false } (.string none (some 8) (some ipv4Token)) (.str "10.20.30.40") with
+        | .error .valueErr => true | _ => false) = true
+    ∧ (match validate { reMatch := fmtMatch fun _ _ => false } (.seqOf .list (.string none none (some hostNameToken)) {})
+          (.list [.str "a.b", .str "a..b"]) with
+        | .error .valueErr => true | _ => false) = true
+    ∧ (match validate { reMatch := fmtMatch fun _ _ => false } (.string none none (some ipv4Token)) (.int 5) with
+        | .error .typeErr => true | _ => false) = true := by
+  decide
+
+/-! ### DecimalNumber
+
+`vDecimal` (Sem/Decimal.lean) mirrors `DecimalNumber.__set__`: `Decimal(value)`, then the Number checks, the Decimal is
+stored.  `Decimal(str)` is an oracle (`parse`), universally quantified. -/
+
+/-- `Decimal(v)` succeeds exactly on bool / int / float / Decimal and on the strings the `decimal` module parses, and
+    yields the Decimal of the same numeric value -/
+theorem toDecimal_exact (parse : String → Option Q) (v w : PyVal) :
+    toDecimal parse v = .ok w ↔ ∃ q, decValue parse v = some q ∧ w = .dec q := by
+  unfold toDecimal
+  cases h : decValue parse v <;> simp
+  constructor <;> intro h' <;> simp [h']
+
+/-- a failing conversion is a TypeError or a ValueError; a TypeError exactly for the types Decimal cannot be built from -/
+theorem toDecimal_reject (parse : String → Option Q) (v : PyVal) (e : ErrCls)
+    (h : toDecimal parse v = .error e) : decValue parse v = none ∧ e = decErr v ∧ (e = .typeErr ∨ e = .valueErr) := by
+  unfold toDecimal at h
+  cases hd : decValue parse v <;> rw [hd] at h <;> simp at h
+  subst h
+  refine ⟨rfl, rfl, ?_⟩
+  cases v <;> simp [decErr]
+
+/-- **DecimalNumber**: accepted exactly when the value converts to a Decimal whose number satisfies multiplesOf /
+    minimum / maximum / exclusiveMaximum; what is stored is that Decimal -/
+theorem decimal_field_exact (parse : String → Option Q) (o : NumOpts) (v w : PyVal) :
+    vDecimal parse o v = .ok w ↔ ∃ q, decValue parse v = some q ∧ numOk o q = true ∧ w = .dec q := by
+  unfold vDecimal toDecimal
+  cases h : decValue parse v with
+  | none => simp
+  | some q =>
+    simp only [bindE_ok, vNumber, PyVal.asNum]
+    by_cases hn : numOk o q = true
+    · simp [hn]; constructor <;> intro h' <;> simp [h']
+    · simp [hn]
+
+/-- every rejection of a DecimalNumber is a TypeError or a ValueError: a TypeError exactly when the value has a type
+    Decimal cannot be built from; an ill-formed string and a value outside the bounds are ValueErrors -/
+theorem decimal_field_reject (parse : String → Option Q) (o : NumOpts) (v : PyVal) (e : ErrCls)
+    (h : vDecimal parse o v = .error e) :
+    (e = .typeErr ∨ e = .valueErr)
+    ∧ (e = .typeErr ↔ (decValue parse v = none ∧ decErr v = .typeErr)) := by
+  unfold vDecimal toDecimal at h
+  cases hd : decValue parse v with
+  | none =>
+    rw [hd] at h; simp at h; subst h
+    cases v <;> simp [decErr]
+  | some q =>
+    rw [hd] at h
+    simp only [bindE_ok, vNumber, PyVal.asNum] at h
+    by_cases hn : numOk o q = true
+    · simp [hn] at h
+    · simp [hn] at h; subst h; simp
+
+/-- the stored value of a DecimalNumber is a Decimal, `==` to a numeric input -/
+theorem decimal_reads_decimal (parse : String → Option Q) (o : NumOpts) (v w : PyVal)
+    (h : vDecimal parse o v = .ok w) : ∃ q, w = .dec q ∧ (v.asNum.isSome = true → PyVal.pyEq w v = true) := by
+  rcases (decimal_field_exact parse o v w).1 h with ⟨q, hq, _, hw⟩
+  refine ⟨q, hw, ?_⟩
+  intro hn
+  subst hw
+  cases v <;> simp [decValue, PyVal.asNum] at hq hn ⊢
+  all_goals (subst hq; simp [PyVal.pyEq, PyVal.asNum, Q.eq])
+
+/-- a class with DecimalNumber fields accepts exactly the keyword arguments that convert and whose converted form the
+    documented rules of the class (the `number` declarations in place of the DecimalNumber fields) admit; the instance
+    holds the converted values -/
+theorem constructD_complete (parse : String → Option Q) (O : Oracles) (c : ClassOpts)
+    (fields : List (String × FieldDecl)) (defaults : List (String × PyVal)) (decs : List (String × DecPos))
+    (kw kw' : List (String × PyVal)) (hk : convertKw parse decs kw = .ok kw')
+    (ha : admitsKw O (.struct c fields defaults) kw' = true)
+    (hh : O.hookOk (instAttrs (normKw O (.struct c fields defaults) kw')) = true) :
+    constructD parse O (.struct c fields defaults) decs kw = .ok (normKw O (.struct c fields defaults) kw') := by
+  unfold constructD constructH
+  rw [hk, bindE_ok, construct_complete O c fields defaults kw' ha, bindE_ok]
+  simp [hh]
+
+/-- every rejection by such a class is a TypeError or a ValueError (or their common subclass) -/
+theorem constructD_reject (parse : String → Option Q) (O : Oracles) (c : ClassOpts)
+    (fields : List (String × FieldDecl)) (defaults : List (String × PyVal)) (decs : List (String × DecPos))
+    (kw : List (String × PyVal)) (e : ErrCls)
+    (h : constructD parse O (.struct c fields defaults) decs kw = .error e) :
+    e = .typeErr ∨ e = .valueErr ∨ e = .both := by
+  unfold constructD at h
+  cases hk : convertKw parse decs kw with
+  | error e' =>
+    rw [hk] at h; simp at h; subst h
+    rcases c02_convertKw_err parse decs kw e' hk with h1 | h1
+    · exact Or.inl h1
+    · exact Or.inr (Or.inl h1)
+  | ok kw' =>
+    rw [hk, bindE_ok] at h
+    unfold constructH at h
+    cases ha : admitsKw O (.struct c fields defaults) kw'
+    · rcases construct_reject O c fields defaults kw' ha with ⟨e', he, hcls⟩
+      rw [he] at h; simp at h; subst h; exact hcls
+    · rw [construct_complete O c fields defaults kw' ha, bindE_ok] at h
+      split at h
+      · cases h
+      · simp at h; subst h; exact Or.inr (Or.inl rfl)
+
+/-- non-vacuity: a bounded DecimalNumber on int / float / str / Decimal inputs, an ill-formed string, a wrong type; a
+    class with a DecimalNumber array -/
+theorem decimal_example :
+    let parse : String → Option Q := fun s => if s == "1.5" then some ⟨3, 2⟩ else if s == "12" then some ⟨12, 1⟩ else none
+    let o : NumOpts := { min := some ⟨0, 1⟩, max := some ⟨10, 1⟩, mult := none }
+    (match vDecimal parse o (.str "1.5") with | .ok (.dec q) => q.num == 3 && q.den == 2 | _ => false) = true
+    ∧ (match vDecimal parse o (.int 7) with | .ok (.dec q) => q.num == 7 && q.den == 1 | _ => false) = true
+    ∧ (match vDecimal parse o (.float ⟨1, 4⟩) with | .ok (.dec q) => q.num == 1 && q.den == 4 | _ => false) = true
+    ∧ (match vDecimal parse o (.bool true) with | .ok (.dec q) => q.num == 1 | _ => false) = true
+    ∧ (match vDecimal parse o (.str "12") with | .error .valueErr => true | _ => false) = true
+    ∧ (match vDecimal parse o (.str "abc") with | .error .valueErr => true | _ => false) = true
+    ∧ (match vDecimal parse o (.list []) with | .error .valueErr => true | _ => false) = true
+    ∧ (match vDecimal parse o .none with | .error .typeErr => true | _ => false) = true
+    ∧ (match vDecimal parse o (.dict []) with | .error .typeErr => true | _ => false) = true
+    ∧ (match constructD parse { reMatch := fun _ _ => false }
+          (.struct { name := "A", required := ["a"], addl := false, accepts := ["A"] }
+            [("a", .seqOf .list (.number o) { uniq := true }), ("d", .number {})] [])
+          [("a", .items), ("d", .bare)] [("a", .list [.int 1, .str "1.5"]), ("d", .str "12")] with
+        | .ok (.inst "A" [("a", .list [.dec _, .dec _]), ("d", .dec _)]) => true | _ => false) = true
+    ∧ (match constructD parse { reMatch := fun _ _ => false }
+          (.struct { name := "A", required := ["a"], addl := false, accepts := ["A"] }
+            [("a", .seqOf .list (.number o) { uniq := true })] [])
+          [("a", .items)] [("a", .list [.int 1, .float ⟨1, 1⟩])] with
+        | .error .valueErr => true | _ => false) = true := by
+  decide
 
 /-! ### non-vacuity: a nested, constrained declaration on which the decision goes both ways -/
 
